@@ -256,6 +256,13 @@ theorem exec_call_clean (fuel : Nat) (env : Env) (st : St) (ep en : Expr) (p n b
 
 /-! ### pointers -/
 
+theorem mkPtr_succ (b off : Nat) : mkPtr b off + 1 = mkPtr b (off + 1) := by unfold mkPtr; omega
+
+theorem mkPtr_lt (b off : Nat) (hb : b < 2 ^ 30) (ho : off < ptrBase) : mkPtr b off < 18446744073709551616 := by
+  unfold mkPtr ptrBase at *; omega
+
+
+
 theorem resolve_mkPtr (mem : Array Block) (b i size : Nat) (blk : Block) (hb : mem[b]? = some blk)
     (hin : i + size ≤ blk.bytes.size) (hlt : blk.base + i < ptrBase) (hal : size > 1 → (blk.base + i) % size = 0) :
     resolve mem (mkPtr b (blk.base + i)) size = .ok (b, i) := by
@@ -392,5 +399,25 @@ theorem hmac_free_zeroes (fuel : Nat) (st : St) (b : Nat) (blk : Block) (hb : st
     show f_tinyjambu_hash_free.allocs = [] from rfl, Nat.sub_self, List.replicate_zero, List.append_nil, Nat.zero_add]
   rw [hc]
   simp only [leaveFun, assignDst, wiped, extract_setBlock, List.cons_append, List.nil_append]
+
+
+/-! ### evaluation of expressions on concrete environments -/
+
+theorem Lab.join_ne_undef (a b : Lab) : Lab.join a b ≠ .undef := by cases a <;> cases b <;> simp [Lab.join]
+theorem Lab.join_pub_pub : Lab.join .pub .pub = .pub := rfl
+theorem Lab.join_sec_left (l : Lab) : Lab.join .sec l = .sec := by cases l <;> rfl
+theorem Lab.join_sec_right (l : Lab) : Lab.join l .sec = .sec := by cases l <;> rfl
+theorem castVal_u32_i32_zero : castVal .u32 .i32 0 = 0 := rfl
+theorem castVal_u8_i32_zero : castVal .u8 .i32 0 = 0 := rfl
+
+/-- evaluation rules used between unfoldings of `exec` (never `exec` itself: each `rw [exec]` unfolds exactly the
+    statement that is executed next) -/
+macro "ev" : tactic => `(tactic| simp only [evalE, List.getElem?_toArray, List.getElem?_cons_succ, List.getElem?_cons_zero,
+  reduceCtorEq, if_false, if_true, BinOp.needsPub2, BinOp.needsPub1, Bool.false_and, Bool.true_and, Bool.or_self, Bool.or_false,
+  Bool.false_eq_true, binVal, unVal, castVal_u32_i32_zero, castVal_u8_i32_zero, Ty.signed, Ty.bits, Ty.bytes, Ty.half, Ty.modulus, Lab.join_pub_pub, Lab.join_sec_left, Lab.join_sec_right, setVar, b2n,
+  gt_iff_lt, Nat.lt_irrefl, Nat.zero_lt_succ,
+  List.setIfInBounds_toArray, List.set_cons_succ, List.set_cons_zero, ne_eq, not_true_eq_false, not_false_eq_true, bne_iff_ne,
+  decide_not, decide_true, decide_false, Bool.not_true, Bool.not_false])
+
 
 end TJ.MiniC
